@@ -121,6 +121,16 @@ def run(ctx):
                                "kernel_string", "rotate_pt", "rotate", "is_connected"]:
                         ops = ([[q1]] if q1 else []) + [["set_turns", v], [q2], ["get_loop_index", [0, 0]], ["get_paired_loc", [0, 0]]]
                         reqs.append(("c03_history", [sq, list(s), ops]))
+        # the same query several times within one rotation (lazily computed lists that may legitimately be empty): complexes
+        # without unpaired exterior domains but with enclosed ones, and the other way round
+        for s in ["((.)+)", "(.(+))", "((.)(+))", "(.)", "(+)", "((.)+(.))", "(.+)", "(+.)", "((+)(.))", ".(+).", "(.)+(.)"]:
+            sq = gs.seq_for(rng, s, names=("a", "b"))
+            n = s.count("+") + 1
+            for first in (["exterior_domains"], ["enclosed_domains"]):
+                for v in (None, 1, n):
+                    ops = ([["set_turns", v]] if v is not None else []) + [first, ["exterior_domains"], ["enclosed_domains"], ["exterior_domains"],
+                                                                           ["enclosed_domains"], ["enclosed_domains"], ["exterior_domains"]]
+                    reqs.append(("c03_history", [sq, list(s), ops]))
         diffs += correspond(ctx, "view-histories", reqs)
         # the direct statement on the implementation: every view equals that of a fresh complex at the same rotation
         probe = reqs[-6000:] if len(reqs) > 6000 else reqs
@@ -135,6 +145,8 @@ def run(ctx):
             sq_, st_, ops_ = rq[1]
             n_ = st_.count("+") + 1
             extra = [[rng.choice(["rotate_t", "rotate_pt_t"]), rng.choice([0, 1, n_ - 1, n_, n_ + 1, n_ + 2, 2 * n_, 2 * n_ + 1, 3 * n_ + 2])] for _ in range(2)]
+            if rng.random() < 0.5:
+                extra[rng.randrange(2)] = ["split"]          # consuming split() is a read-only query of the object
             k_ = rng.randrange(len(ops_) + 1)
             probe2.append(("c03_fresh_compare", [sq_, st_, ops_[:k_] + extra[:1] + ops_[k_:] + extra[1:]]))
         for rq, r in zip(probe2, run_impl(probe2)):
